@@ -19,6 +19,7 @@ LAY = {
     "line":   dict(tc0=6, tc1=46, cend=50, cbeg=0, slines=1, elines=1, len=50, elen=14),
     "inline": dict(tc0=6, tc1=46, cend=53, cbeg=5, slines=1, elines=1, len=58, elen=22),
     "cont":   dict(tc0=6, tc1=46, cend=13, cbeg=0, slines=2, elines=2, len=50, elen=17),
+    "mltag":  dict(tc0=6, tc1=25, cend=32, cbeg=0, slines=2, elines=1, len=28, elen=17),
 }
 RULES = {"affects": 'affects=":zz" p=a', "count": 'line-count="<0" q'}
 POOL = "034569ABCDEFGHIJKLMNOPQRSTUVWXYZ"   # one repeated character per code line; none occurs in tag lines
@@ -34,6 +35,9 @@ def s_line(lay, name, rule, kind=None, old=False):
     n = ")n" if (kind == "cmtB" and old) else "(n" if kind == "cmtB" else "nn"
     m = ")m" if (kind == "cmtA" and old) else "(m" if kind == "cmtA" else "mm"
     tag = tag_text(name, rule, v)
+    if lay == "mltag":
+        # first line of a start tag that spans two lines
+        return '/* %s <block name="%s" v="%s"' % (n, name, v)
     if lay == "line":
         return "// %s %s %s" % (n, tag, m)
     if lay == "inline":
@@ -42,8 +46,17 @@ def s_line(lay, name, rule, kind=None, old=False):
     return "/* %s %s %s" % (n, tag, m)
 
 
+def c_line_mltag(rule, kind=None, old=False):
+    """second line of the two-line start tag: attribute w, the rule, '>' and comment text"""
+    w = ")" if (kind == "attr2" and old) else "("
+    m = ")m" if (kind == "cmtA2" and old) else "(m" if kind == "cmtA2" else "mm"
+    return '  w="%s" %s> %s */' % (w, RULES[rule], m)
+
+
 def e_line(lay, kind=None, old=False):
     m = ")m" if (kind == "endcmt" and old) else "(m" if kind == "endcmt" else "mm"
+    if lay == "mltag":
+        return "/* </block> %s */" % m
     if lay == "line":
         return "// </block> %s" % m
     if lay == "inline":
@@ -57,7 +70,15 @@ CP_LINE = "/* mm"
 
 
 def selfcheck_layouts():
+    L = LAY["mltag"]
+    s1, s2 = s_line("mltag", "ba", "affects"), c_line_mltag("affects")
+    assert s1.index("<block") == L["tc0"] and len(s1) == L["len"] and s1[26] == "(", (s1, len(s1))
+    assert s2.index(">") == L["tc1"] and len(s2) == 32 and s2.index("*/") + 2 == L["cend"] and s2[5] == "(", (s2, len(s2))
+    assert c_line_mltag("count").index(">") == L["tc1"] and c_line_mltag("affects", "cmtA2")[27] == "("
+    assert len(e_line("mltag")) == L["elen"] and e_line("mltag", "endcmt")[12] == "("
     for lay, L in LAY.items():
+        if lay == "mltag":
+            continue
         s = s_line(lay, "ba", "affects")
         assert s.index("<block") == L["tc0"], (lay, s)
         assert s.index(">") == L["tc1"], (lay, s.index(">"))
@@ -98,7 +119,7 @@ def concretize(case, rule):
         role[b["ps"]] = ("S", bi, name)
         role[b["pe"]] = ("E", bi, name)
         if L["slines"] == 2:
-            role[b["ps"] + 1] = ("C", bi, name)
+            role[b["ps"] + 1] = ("C2" if b["lay"] == "mltag" else "C", bi, name)
         if L["elines"] == 2:
             role[b["pe"] - 1] = ("CP", bi, name)
     entries = []
@@ -128,6 +149,10 @@ def concretize(case, rule):
                     old_t = "@" * 20 if mk == "full" else e_line(b["lay"], mk, old=True)
                 else:
                     old_t = new_t if op == "K" else None
+            elif kind == "C2":
+                mk = b.get("kc") if op == "M" else None
+                new_t = c_line_mltag(rule, mk, old=False)
+                old_t = c_line_mltag(rule, mk, old=True) if op == "M" else (new_t if op == "K" else None)
             else:
                 new_t = C_LINE if kind == "C" else CP_LINE
                 old_t = new_t if op == "K" else None
